@@ -269,8 +269,11 @@ def _scan(toks, i, end, it, impl_type, impl_trait):
             i = j + 1
             continue
         if t.k == "id" and t.s in ("fn", "async", "unsafe") and (impl_type is not None or (i + 1 < end and toks[i + 1].k == "id")):
+            if t.s == "async" and toks[i + 1].s == "fn":
+                i += 1          # async fn: scanned like a fn; `.await` is transparent for the translator's state targets
+                t = toks[i]
             if t.s != "fn":
-                # async/unsafe fn: skip
+                # unsafe fn: skip
                 j = i
                 while toks[j].s != "{" and toks[j].s != ";":
                     j += 1 if toks[j].s not in OPEN else 0
@@ -434,6 +437,8 @@ class Parser:
                 args.append(self.type())
                 if self.peek() == ",":
                     self.eat()
+                    if self.peek() in (">", ">>"):
+                        break
                     continue
                 break
             if self.peek() == ">>":
@@ -455,7 +460,7 @@ class Parser:
             return ("hole", [None])
         if n == "Option" and len(args) == 1:
             return ("option", args[0])
-        if n in ("Vec", "VecDeque") and len(args) == 1:
+        if n in ("Vec", "VecDeque", "HashSet", "BTreeSet") and len(args) == 1:
             return ("list", args[0])
         if n in ("HashMap", "BTreeMap") and len(args) == 2:
             return ("map", n, args[0], args[1])
@@ -463,12 +468,16 @@ class Parser:
             return ("result", args[0], args[1])
         if n == "Result" and len(args) == 1 and "anyhow" in segs:
             return ("result", args[0], ("named", "anyhow"))
+        if n == "Result" and len(args) == 1 and "ctx" in segs:
+            return ("result", args[0], ("named", "CtxError"))
         if n == "Box" and len(args) == 1:
             return args[0]
         if n == "Signed" and len(args) == 1 and args[0][0] == "named":
             return ("named", "Signed_" + args[0][1])      # instances of the generic struct are separate table types
+        if n == "Arc" and len(args) == 1:
+            return args[0]
         if args:
-            self.err(f"generic type {n}<..> is outside the subset")
+            return ("gnamed", n, args)      # usable only through a type-table entry for `n` (e.g. a channel endpoint)
         return ("named", n)
 
     # -- patterns
@@ -516,6 +525,9 @@ class Parser:
             if self.peek() == "{":
                 self.err("struct patterns are outside the subset")
             if len(segs) == 1 and segs[0][0].islower():
+                if self.peek() == "@":
+                    self.eat()
+                    return ("pat_at", segs[0], self.pattern())
                 return ("pbind", segs[0])
             return ("ppath", segs)
         self.err(f"unexpected {s!r} in pattern")
@@ -598,7 +610,8 @@ class Parser:
                 elif self.kind() == "id":
                     name = self.eat()
                     if name == "await":
-                        self.err(".await is outside the subset")
+                        e = ("await", e)
+                        continue
                     if self.peek() == "::":
                         # turbofish: parsed (so that a target can bind the expression) but never translated
                         self.eat()
@@ -792,9 +805,12 @@ class Parser:
             if self.peek() == "!":
                 name = segs[-1]
                 self.eat()
+                if segs[0] == "tracing" and self.peek() == "(":
+                    self.i = skip_group(self.t, self.i)      # logging: never translated
+                    return ("macro", "tracing", [])
                 if self.peek() not in ("(", "["):
                     self.err("macro with { } is outside the subset")
-                if name not in ("assert", "assert_eq", "assert_ne", "debug_assert", "unreachable", "panic", "ensure", "bail"):
+                if name not in ("assert", "assert_eq", "assert_ne", "debug_assert", "unreachable", "panic", "ensure", "bail", "format_err"):
                     self.err(f"macro {name}! is outside the subset")
                 if name in ("unreachable", "panic"):
                     self.i = skip_group(self.t, self.i)
